@@ -466,8 +466,144 @@ def run_failsub(job):
     return ('failsub', '%s then %s' % ('+'.join(things), fail), outcome, v, st, {'files': files, 'args': [], 'failsub': [list(things), fail]})
 
 
+# ---- every linkable target kind linked into every consuming kind, through every link relation ----------------------------
+LINK_PROVIDERS = ['static_library', 'shared_library', 'both_libraries', 'library', 'shared_module']
+LINK_CONSUMERS = ['executable', 'shared_library', 'static_library', 'shared_module', 'both_libraries']
+LINK_RELATIONS = ['link_with', 'link_whole', 'dependency', 'dependency-whole', 'objects', 'transitive']
+
+
+def linkkinds_cases(thorough):
+    combos = [(l, d) for l in ('mirror', 'flat') for d in ('shared', 'static', 'both')]
+    out = []
+    for pi, p in enumerate(LINK_PROVIDERS):
+        for qi, q in enumerate(LINK_CONSUMERS):
+            for ri, r in enumerate(LINK_RELATIONS):
+                for ci, c in enumerate(combos):
+                    if thorough or (pi + qi + ri) % len(combos) == ci:
+                        out.append((p, q, r, c))
+    return out
+
+
+def run_linkkinds(job):
+    """A consumer's link statement names files of the provider (the library, its symbol file, its import names): each of them must be
+    produced by a statement whatever the two kinds are.  meson may refuse a combination (link_whole of a shared library): that is a
+    rejection, not a violation."""
+    from verif import mesonproc as mp
+    idx, p, q, r, (layout, deflib) = job
+    root = os.path.join(scratch_root(), 'c04k.%d' % os.getpid())
+    shutil.rmtree(root, ignore_errors=True)
+    files = {'p.c': 'int pf(void) { return 1; }\n', 'mid.c': 'int pf(void); int mid(void) { return pf(); }\n',
+             'q.c': 'int pf(void); int main(void) { return pf() - 1; }\n'}
+    L = ["project('lk', 'c')", "subdir('prov')"]
+    P = ["p = %s('prov lib', '../p.c')" % p]
+    how = {'link_with': 'link_with: p', 'link_whole': 'link_whole: p', 'dependency': 'dependencies: declare_dependency(link_with: p)',
+           'dependency-whole': 'dependencies: declare_dependency(link_whole: p)', 'objects': 'objects: p.extract_all_objects(recursive: true)',
+           'transitive': 'link_with: mid'}[r]
+    if r == 'transitive':
+        P.append("mid = static_library('mid', '../mid.c', link_with: p)")
+    L.append("c = %s('cons', 'q.c', %s)" % (q, how))
+    L.append("test('runs', c)" if q == 'executable' else "executable('user', 'q.c', link_with: c)")
+    files['meson.build'] = '\n'.join(L) + '\n'
+    files['prov/meson.build'] = '\n'.join(P) + '\n'
+    mp.write_tree(root, files)
+    args = ['--layout=' + layout, '-Ddefault_library=' + deflib]
+    res = mp.run_meson(['setup', 'b'] + args, root)
+    outcome, v, st = judge_setup(res, os.path.join(root, 'b'))
+    shutil.rmtree(root, ignore_errors=True)
+    return ('linkkinds', '%s <-%s- %s [%s %s]' % (q, r, p, layout, deflib), outcome, v, st, {'files': files, 'args': args})
+
+
+# ---- things placed with build_subdir:, consumed in every position ----------------------------------------------------------
+BSUB_PROVIDERS = {
+    'configure_file': "x = configure_file(output: 'x.h', configuration: {'A': 1}, build_subdir: 'bs')",
+    'executable': "x = executable('xprog', @MAIN@, build_subdir: 'bs')",
+    'static_library': "x = static_library('xl', @LIB@, build_subdir: 'bs')",
+    'shared_library': "x = shared_library('xs', @LIB@, build_subdir: 'bs')",
+    'custom_target': "x = custom_target('xc', output: 'xc.txt', command: [cp, @LIB@, '@OUTPUT@'], build_subdir: 'bs')",
+    'custom_target-2': "x = custom_target('xd', output: ['xd1.txt', 'xd2.txt'], command: [cp, @LIB@, @MAIN@, '@OUTDIR@'], build_subdir: 'bs')[1]",
+}
+# the same custom targets without build_subdir: (the flat layout moves them as well)
+BSUB_PROVIDERS['custom_target-plain'] = BSUB_PROVIDERS['custom_target'].replace(", build_subdir: 'bs'", '')
+BSUB_PROVIDERS['custom_target-2-plain'] = BSUB_PROVIDERS['custom_target-2'].replace(", build_subdir: 'bs'", '')
+BSUB_CONSUMERS = {
+    'ct-input': "custom_target('u', input: x, output: 'u.txt', command: [cp, '@INPUT@', '@OUTPUT@'], build_by_default: true)",
+    'ct-arg': "custom_target('u', output: 'u.txt', command: [cp, x, '@OUTPUT@'], build_by_default: true)",
+    'ct-depends': "custom_target('u', output: 'u.txt', command: [cp, @LIB@, '@OUTPUT@'], depends: x, build_by_default: true)",
+    'ct-depend_files': "custom_target('u', output: 'u.txt', command: [cp, @LIB@, '@OUTPUT@'], depend_files: x, build_by_default: true)",
+    'test-program': "test('t', x)",
+    'test-arg': "test('t', cp, args: ['--version', x])",
+    'link_with': "executable('u', @MAIN@, link_with: x)",
+    'source': "executable('u', @MAIN@, x)",
+    'run_target': "run_target('r', command: [cp, x, 'copy'])",
+    'generator': "executable('u', @MAIN@, generator(cp, output: '@BASENAME@.gen.h', arguments: ['@INPUT@', '@OUTPUT@']).process(x))",
+    'alias': "alias_target('al', x)",
+}
+BSUB_OK = {   # which consumer positions accept which provider (the others are type errors of the build definition)
+    'configure_file': ['ct-input', 'ct-arg', 'ct-depend_files', 'test-arg', 'source', 'run_target', 'generator'],
+    'executable': ['ct-input', 'ct-arg', 'ct-depends', 'test-program', 'test-arg', 'run_target', 'alias'],
+    'static_library': ['ct-input', 'ct-arg', 'ct-depends', 'test-arg', 'link_with', 'run_target', 'alias'],
+    'shared_library': ['ct-input', 'ct-arg', 'ct-depends', 'test-arg', 'link_with', 'run_target', 'alias'],
+    'custom_target': ['ct-input', 'ct-arg', 'ct-depends', 'test-arg', 'run_target', 'generator', 'alias'],
+    'custom_target-2': ['ct-input', 'ct-arg', 'test-arg', 'run_target', 'generator'],
+    'custom_target-plain': ['ct-input', 'ct-arg', 'ct-depends', 'test-arg', 'run_target', 'generator', 'alias'],
+    'custom_target-2-plain': ['ct-input', 'ct-arg', 'test-arg', 'run_target', 'generator'],
+}
+
+
+def bsub_cases(thorough):
+    out = []
+    i = 0
+    for p, cons in BSUB_OK.items():
+        for c in cons:
+            for li, layout in enumerate(('mirror', 'flat')):
+                for pi, place in enumerate(('root', 'subdir', 'split')):
+                    i += 1
+                    if thorough or (i % 3 == 0):
+                        out.append((p, c, layout, place))
+    return out
+
+
+def run_bsub(job):
+    """build_subdir: moves an output into a sub-directory of the build directory; every statement that consumes the thing must name
+    the file where its producing statement (or configuration) puts it."""
+    from verif import mesonproc as mp
+    idx, p, c, layout, place = job
+    root = os.path.join(scratch_root(), 'c04b.%d' % os.getpid())
+    shutil.rmtree(root, ignore_errors=True)
+    files = {'main.c': 'int main(void) { return 0; }\n', 'lib.c': 'int libf(void) { return 3; }\n'}
+    head = ["project('bs', 'c')", "cp = find_program('cp')"]
+    def at(text, up):
+        return text.replace('@LIB@', "files('%slib.c')" % up).replace('@MAIN@', "files('%smain.c')" % up)
+    prov = at(BSUB_PROVIDERS[p], '' if place == 'root' else '../')
+    cons = at(BSUB_CONSUMERS[c], '../' if place == 'subdir' else '')
+    if place == 'root':
+        files['meson.build'] = '\n'.join(head + [prov, cons]) + '\n'
+    elif place == 'subdir':
+        files['meson.build'] = '\n'.join(head + ["subdir('d')"]) + '\n'
+        files['d/meson.build'] = '\n'.join([prov, cons]) + '\n'
+    else:
+        files['meson.build'] = '\n'.join(head + ["subdir('d')", cons]) + '\n'
+        files['d/meson.build'] = prov + '\n'
+    mp.write_tree(root, files)
+    args = ['--layout=' + layout]
+    res = mp.run_meson(['setup', 'b'] + args, root)
+    outcome, v, st = judge_setup(res, os.path.join(root, 'b'))
+    if outcome != 'configured' and not v:
+        v.append(('C04:INTERNAL', 'build_subdir project rejected: ' + res.out[-300:]))
+    if layout == 'flat' and p.startswith('custom_target'):
+        # name the input class: under --layout=flat a custom target's output handed to <position> is looked for where the mirror
+        # layout would put it
+        v = [((k + ':flat-layout:custom-target-output-as-' + c) if k == 'C04:dangling-input' else k, w) for k, w in v]
+    shutil.rmtree(root, ignore_errors=True)
+    return ('bsubdir', '%s consumed as %s [%s, %s]' % (p, c, layout, place), outcome, v, st, {'files': files, 'args': args})
+
+
 def dispatch(job):
     kind = job[0]
+    if kind == 'bsubdir':
+        return run_bsub(job[1:])
+    if kind == 'linkkinds':
+        return run_linkkinds(job[1:])
     if kind == 'unity':
         return run_unity(job[1:])
     if kind == 'gen':
@@ -552,6 +688,14 @@ def main():
         for things, fail in failsub_cases(ck.thorough):
             jobs.append(('failsub', idx, things, fail))
             idx += 1
+    if ck.want('bsubdir'):
+        for p, c, layout, place in bsub_cases(ck.thorough):
+            jobs.append(('bsubdir', idx, p, c, layout, place))
+            idx += 1
+    if ck.want('linkkinds'):
+        for p, q, r, c in linkkinds_cases(ck.thorough):
+            jobs.append(('linkkinds', idx, p, q, r, c))
+            idx += 1
     if ck.want('genshare'):
         for seq in genshare_cases():
             jobs.append(('genshare', idx, seq))
@@ -586,6 +730,9 @@ def main():
         ck.part(k, **t)
     if 'gen' in tot:
         ck.require(tot['gen']['configured'] == tot['gen']['n'], 'not all generated projects configured')
+    if 'linkkinds' in tot:
+        ck.require(tot['linkkinds']['configured'] >= 0.6 * tot['linkkinds']['n'] and tot['linkkinds']['rejected'] > 0,
+                   'link-kind family: %r' % (tot['linkkinds'],))
     if 'neg' in tot:
         ck.require(tot['neg']['rejected'] > 10 and tot['neg']['configured'] > 10, 'negative space does not exercise both outcomes')
     if 'corpus' in tot:
